@@ -1,6 +1,6 @@
 (* The root of the archive: _save appends "protocol" and "_skops_version" to the root state; get_tree never reads them
    below root_tree.  loads_model (dumps_model v) = v for the proved fragment. *)
-From Skv Require Import PyStrFacts CodecGuards CodecWfFacts CodecShareFacts CodecFacts.
+From Skv Require Import PyStrFacts CodecGuards CodecWfFacts CodecMemberFacts CodecShareFacts CodecFacts.
 From Coq Require Import Lia.
 
 Section Ext.
@@ -44,20 +44,28 @@ Section Ext.
     destruct (dispatch (e_reg E) (e_cur E) l proto) as [[tag|]|]; cbn [bind]; [|reflexivity|reflexivity].
     destruct (kind_of_class tag) as [k|]; [|reflexivity]. apply build_ext.
   Qed.
+
+  Lemma file_table_ext kv : (forall v0, p <> JObj v0) -> (forall l0, p <> JArr l0) -> (forall v0, ver <> JObj v0) -> (forall l0, ver <> JArr l0) ->
+    file_table (JObj (kv ++ ex)) = file_table (JObj kv).
+  Proof.
+    intros Hp1 Hp2 Hv1 Hv2. rewrite !file_table_obj. unfold ft_own. rewrite !dget_ex by reflexivity. f_equal.
+    rewrite flat_map_app. cbn [flat_map snd ex]. destruct p; try (exfalso; eapply Hp1; reflexivity); try (exfalso; eapply Hp2; reflexivity);
+      destruct ver; try (exfalso; eapply Hv1; reflexivity); try (exfalso; eapply Hv2; reflexivity); cbn [file_table app]; rewrite app_nil_r; reflexivity.
+  Qed.
 End Ext.
 
 Local Opaque get_tree construct_val default_fuel construct_fuel.
 
-Lemma loads_of_load_state C kv p ver v :
+Lemma loads_of_load_state C kv (pz : Z) (ver : pstr) v :
   dget (s "protocol") kv = None ->
-  load_state C (file_table (JObj (kv ++ [(CodecDump.K "protocol", p); (CodecDump.K "_skops_version", ver)]))) p (JObj kv) = Ok v ->
-  loads_model C (JObj (kv ++ [(CodecDump.K "protocol", p); (CodecDump.K "_skops_version", ver)])) = Ok v.
+  load_state C (file_table (JObj kv)) (JInt pz) (JObj kv) = Ok v ->
+  loads_model C (JObj (kv ++ [(CodecDump.K "protocol", JInt pz); (CodecDump.K "_skops_version", JStr ver)])) = Ok v.
 Proof.
   intros Hp H. unfold loads_model, root_tree.
-  assert (Hpr : jindex (JObj (kv ++ [(CodecDump.K "protocol", p); (CodecDump.K "_skops_version", ver)])) (GetTree.K "protocol") = Ok p).
+  assert (Hpr : jindex (JObj (kv ++ [(CodecDump.K "protocol", JInt pz); (CodecDump.K "_skops_version", JStr ver)])) (GetTree.K "protocol") = Ok (JInt pz)).
   { cbn [jindex]. rewrite (dget_app_none _ _ _ Hp). reflexivity. }
-  rewrite Hpr. cbn [bind]. rewrite get_tree_ext. unfold load_state in H.
-  destruct (get_tree default_fuel (c_env C) p [] (SOne (GetTree.K "root")) [] (JObj kv)) as [[t m']|]; [|discriminate H].
+  rewrite Hpr. cbn [bind]. rewrite get_tree_ext. rewrite file_table_ext by (intros; discriminate). unfold load_state in H.
+  destruct (get_tree default_fuel (c_env C) (JInt pz) [] (SOne (GetTree.K "root")) [] (JObj kv)) as [[t m']|]; [|discriminate H].
   cbn [bind] in *. rewrite H. reflexivity.
 Qed.
 
@@ -69,11 +77,12 @@ Proof.
   intros Hcur Hr Hs Hg Hd. subst cur. unfold dumps_model in Hd.
   destruct (get_state D v (init_dst base)) as [[j st]|] eqn:E0; [|discriminate]. cbn [bind] in Hd.
   destruct (root_fields _ _ _ _ _ E0) as [kv [-> [Hp Hv]]].
-  destruct (share_roundtrip D F (cenv_of reg (dn_cur D) F {| a_schema := JNull; a_members := [] |}) [] base v _ _ (conj eq_refl eq_refl) Hs Hr Hg E0) as [Hl _].
+  destruct (share_roundtrip D F (cenv_of reg (dn_cur D) F {| a_schema := JNull; a_members := d_members st |}) base v _ _
+              (conj eq_refl eq_refl) eq_refl eq_refl eq_refl Hs Hr Hg E0) as [Hl _].
   rewrite Hl in Hd. injection Hd as <-. cbn [a_schema].
   apply loads_of_load_state; [exact Hp|].
-  match goal with |- load_state ?C0 ?f0 _ _ = _ =>
-    exact (proj2 (share_roundtrip D F C0 f0 base v _ _ (conj eq_refl eq_refl) Hs Hr Hg E0)) end.
+  match goal with |- load_state ?C0 _ _ _ = _ =>
+    exact (proj2 (share_roundtrip D F C0 base v _ _ (conj eq_refl eq_refl) eq_refl eq_refl eq_refl Hs Hr Hg E0)) end.
 Qed.
 
 (* ---- the dump does not refuse a value of the proved fragment ---- *)
@@ -105,7 +114,8 @@ Qed.
 Theorem frag_total F D : forall v, fragb F D v = true -> forall st, exists j st', get_state D v st = Ok (j, st').
 Proof.
   apply (PyValInd.pval_ind' (fun v => fragb F D v = true -> forall st, exists j st', get_state D v st = Ok (j, st'))).
-  - intros v Hl Hf st. destruct v; try discriminate Hl; cbn [fragb] in Hf; try discriminate Hf; cbn [get_state]; eauto.
+  - intros v Hl Hf st. destruct v; try discriminate Hl; cbn [fragb] in Hf; try discriminate Hf; cbn [get_state]; eauto;
+      try (destruct (fresh st) as [tid0 stq]; eauto).
     apply andb_prop in Hf. destruct Hf as [Hf H3]. apply andb_prop in Hf. destruct Hf as [H1 H2].
     assert (Hsb : forall x st0, bound_supported x = true -> exists jx, sbound_json x st0 = Ok (jx, st0)).
     { intros x st0 Hx. destruct x as [[| | | |]|]; try discriminate Hx; eexists; reflexivity. }
@@ -126,10 +136,17 @@ Proof.
     { rewrite Forall_forall in *. intros x Hx. apply IH; [exact Hx|apply Hall; exact Hx]. }
     cbn [bind]. destruct (IHf Hff st1) as [jf [st2 ->]]. cbn [bind]. eauto.
   - intros; discriminate.
-  - intros; discriminate.
-  - intros; discriminate.
-  - intros; discriminate.
-  - intros; discriminate.
+  - intros id mo c d k IHd IHk Hf st. cbn [fragb] in Hf. apply andb_prop in Hf. destruct Hf as [Hf Hfk]. apply andb_prop in Hf. destruct Hf as [_ Hfd].
+    cbn [get_state]. destruct (IHd Hfd st) as [jd [st1 ->]]. cbn [bind]. destruct (IHk Hfk st1) as [jk [st2 ->]]. cbn [bind]. eauto.
+  - intros id mo c x IHx Hf st. cbn [fragb] in Hf. apply andb_prop in Hf. destruct Hf as [_ Hfx].
+    cbn [get_state]. destruct (IHx Hfx st) as [jx [st1 ->]]. cbn [bind]. eauto.
+  - intros id mo c x y IHx IHy Hf st. cbn [fragb] in Hf. apply andb_prop in Hf. destruct Hf as [Hf Hfy]. apply andb_prop in Hf. destruct Hf as [_ Hfx].
+    cbn [get_state]. destruct (IHx Hfx st) as [jx [st1 ->]]. cbn [bind]. destruct (IHy Hfy st1) as [jy [st2 ->]]. cbn [bind]. eauto.
+  - intros id mo c f a k n IHf IHa IHk IHn Hf st. cbn [fragb] in Hf.
+    apply andb_prop in Hf. destruct Hf as [Hf Hfn]. apply andb_prop in Hf. destruct Hf as [Hf Hfk]. apply andb_prop in Hf. destruct Hf as [Hf Hfa].
+    apply andb_prop in Hf. destruct Hf as [_ Hff].
+    cbn [get_state]. destruct (IHf Hff st) as [j1 [st1 ->]]. cbn [bind]. destruct (IHa Hfa st1) as [j2 [st2 ->]]. cbn [bind].
+    destruct (IHk Hfk st2) as [j3 [st3 ->]]. cbn [bind]. destruct (IHn Hfn st3) as [j4 [st4 ->]]. cbn [bind]. eauto.
   - intros id c a IHa Hf st. cbn [fragb] in Hf. apply andb_prop in Hf. destruct Hf as [_ Hfa]. cbn [get_state].
     destruct (IHa Hfa st) as [ja [st1 ->]]. cbn [bind]. eauto.
   - intros; discriminate.
@@ -145,8 +162,8 @@ Proof.
   assert (Hf : fragb F D v = true).
   { unfold c05_guard in Hg. apply andb_prop in Hg. destruct Hg as [Hg _]. apply andb_prop in Hg. destruct Hg as [Hf _]. exact Hf. }
   destruct (frag_total F D v Hf (init_dst base)) as [j [st Hst]].
-  destruct (share_roundtrip D F (cenv_of reg cur F {| a_schema := JNull; a_members := [] |}) [] base v j st (conj eq_refl eq_refl) Hs
-              ltac:(cbn [cenv_of c_env env_of e_reg e_cur]; exact Hr) Hg Hst) as [Hl _].
+  destruct (share_roundtrip D F (cenv_of reg cur F {| a_schema := JNull; a_members := d_members st |}) base v j st
+              (conj eq_refl eq_refl) eq_refl eq_refl eq_refl Hs Hr Hg Hst) as [Hl _].
   destruct (dumps_model D base v) as [a|e] eqn:Ed.
   - cbn [bind]. eapply root_roundtrip; eauto.
   - exfalso. unfold dumps_model in Ed. rewrite Hst in Ed. cbn [bind] in Ed.
